@@ -48,7 +48,14 @@ fn fnv(mut h: u64, b: &[u8]) -> u64 {
 
 pub fn run(scenario: &'static str) {
 	match scenario {
-		"vis" => pipe(Mode::Vis),
+		"vis" =>
+			if shuttle::rand::thread_rng().gen_ratio(2, 5) {
+				visx(false)
+			} else {
+				pipe(Mode::Vis)
+			},
+		"iter" => visx(true),
+		"ioerr" => ioerr_threads(),
 		"live" => pipe(Mode::Live),
 		"drop" => pipe(Mode::Drop),
 		"order" => pipe(Mode::Order),
@@ -872,5 +879,792 @@ fn treelock() {
 	}
 	note_history(fnv(0, &[ntrees, nreaders as u8, direct as u8]) ^ crate::EXECUTIONS.load(Ordering::Relaxed), || {
 		json!({"scenario": "treelock", "trees": ntrees, "readers": nreaders})
+	});
+}
+
+// ---------------------------------------------------------------------------------------------
+// C05 / C04 (thread part, extended): several committers, removals, size reads and (btree) iterator
+// steps, judged by a partial-order oracle. Every transaction has invoke/return stamps; "A
+// definitely precedes B" = A returned before B was invoked. Each observation adds constraints
+// "A is ordered before B in commit order"; at the end the constraints together with the real-time
+// order must be acyclic (a small linearizability check: values are unique per transaction, so
+// every read is attributable to one write).
+
+#[derive(Clone)]
+struct TxX {
+	inv: u64,
+	ret: u64,
+	/// (key, Some(len) = set / None = removal)
+	writes: Vec<(u8, Option<usize>)>,
+}
+
+struct HistX {
+	txs: Vec<TxX>, // index = transaction id - 1; inv == 0: not invoked yet
+	cons: Vec<(u32, u32, String)>,
+}
+
+impl HistX {
+	fn writes(&self, t: u32, k: u8) -> Option<Option<usize>> {
+		self.txs.get(t as usize - 1).and_then(|x| x.writes.iter().find(|w| w.0 == k).map(|w| w.1))
+	}
+	fn started(&self, t: u32) -> bool {
+		self.txs.get(t as usize - 1).map_or(false, |x| x.inv != 0)
+	}
+	fn inv(&self, t: u32) -> u64 {
+		self.txs[t as usize - 1].inv
+	}
+	fn ret(&self, t: u32) -> u64 {
+		self.txs[t as usize - 1].ret
+	}
+	fn ids(&self) -> std::ops::RangeInclusive<u32> {
+		1..=self.txs.len() as u32
+	}
+	/// Judge one observation of key `k` made between stamps `rinv` and `rret`: `Some(t)` = the value
+	/// of transaction t, `None` = absent. `seen` = transactions this reader has observed so far.
+	fn observe(&mut self, who: &str, k: u8, got: Option<u32>, rinv: u64, rret: u64, seen: &mut Vec<u32>) -> Result<(), String> {
+		match got {
+			Some(t) => {
+				if t == 0 || t as usize > self.txs.len() || !matches!(self.writes(t, k), Some(Some(_))) {
+					return Err(format!("misattributed-read: {who} key {k} returned a value of transaction {t} which did not set it"))
+				}
+				if !self.started(t) || self.inv(t) > rret {
+					return Err(format!("future-read: {who} key {k} returned transaction {t} which had not started when the read returned"))
+				}
+				for o in self.ids() {
+					if o == t || self.writes(o, k).is_none() || !self.started(o) {
+						continue
+					}
+					if self.ret(o) < rinv {
+						// o completed before the read began: t must not be older than o
+						if self.ret(t) < self.inv(o) {
+							return Err(format!("stale-read: {who} key {k} returned transaction {t}, but transaction {o} writing it started after {t} had returned and completed before the read began (read invoked at {rinv}, {o} returned at {})", self.ret(o)));
+						}
+						self.cons.push((o, t, format!("{who} read key {k} = tx {t} after tx {o} had completed")));
+					}
+				}
+				for &s in seen.iter() {
+					if s != t && self.writes(s, k).is_some() {
+						if self.ret(t) < self.inv(s) {
+							return Err(format!("went-back-in-time: {who} had observed transaction {s}; key {k} (written by {s}) now reads transaction {t}, which returned before {s} started"));
+						}
+						self.cons.push((s, t, format!("{who} had observed tx {s} and then read key {k} = tx {t}")));
+					}
+				}
+				if !seen.contains(&t) {
+					seen.push(t);
+				}
+				Ok(())
+			},
+			None => {
+				// candidates: the initial state (id 0) and every removal of k invoked before the read returned
+				let mut cands: Vec<u32> = vec![0];
+				for o in self.ids() {
+					if self.started(o) && self.inv(o) < rret && self.writes(o, k) == Some(None) {
+						cands.push(o);
+					}
+				}
+				let mut why = String::new();
+				let ok = cands.iter().any(|&c| {
+					let cret = if c == 0 { 0 } else { self.ret(c) };
+					for o in self.ids() {
+						if o == c || self.writes(o, k).is_none() || !self.started(o) {
+							continue
+						}
+						if self.ret(o) < rinv && cret < self.inv(o) {
+							why = format!("transaction {o} writing it had completed before the read began");
+							return false
+						}
+					}
+					for &s in seen.iter() {
+						if s != c && self.writes(s, k).is_some() && cret < self.inv(s) {
+							why = format!("the reader had already observed transaction {s}, which writes it");
+							return false
+						}
+					}
+					true
+				});
+				if ok {
+					Ok(())
+				} else {
+					Err(format!("stale-read: {who} key {k} reads as absent, but {why} and no removal of it can be ordered last (read {rinv}..{rret})"))
+				}
+			},
+		}
+	}
+	/// The constraints plus the real-time order must admit a total order.
+	fn check_acyclic(&self) -> Result<(), String> {
+		let n = self.txs.len();
+		let mut adj: Vec<Vec<(usize, String)>> = vec![Vec::new(); n];
+		for a in 0..n {
+			for b in 0..n {
+				if a != b && self.txs[a].inv != 0 && self.txs[b].inv != 0 && self.txs[a].ret < self.txs[b].inv {
+					adj[a].push((b, format!("tx {} returned before tx {} was invoked", a + 1, b + 1)));
+				}
+			}
+		}
+		for (a, b, w) in &self.cons {
+			adj[*a as usize - 1].push((*b as usize - 1, w.clone()));
+		}
+		// DFS with colours
+		fn dfs(u: usize, adj: &Vec<Vec<(usize, String)>>, col: &mut Vec<u8>, path: &mut Vec<String>) -> bool {
+			col[u] = 1;
+			for (v, w) in &adj[u] {
+				if col[*v] == 1 {
+					path.push(w.clone());
+					return true
+				}
+				if col[*v] == 0 {
+					path.push(w.clone());
+					if dfs(*v, adj, col, path) {
+						return true
+					}
+					path.pop();
+				}
+			}
+			col[u] = 2;
+			false
+		}
+		let mut col = vec![0u8; n];
+		for u in 0..n {
+			if col[u] == 0 {
+				let mut path = Vec::new();
+				if dfs(u, &adj, &mut col, &mut path) {
+					let tail: Vec<String> = path.iter().rev().take(6).rev().cloned().collect();
+					return Err(format!("not-linearizable: the observations admit no commit order: {}", tail.join(" -> ")))
+				}
+			}
+		}
+		Ok(())
+	}
+}
+
+fn visx(iter_mode: bool) {
+	let prop = if iter_mode { "C04" } else { "C05" };
+	let dir = fresh_dir();
+	let mut rng = shuttle::rand::thread_rng();
+	let col_kind: u8 = if iter_mode { 1 } else { rng.gen_range(0..3) };
+	let always_flush = rng.gen_bool(0.7);
+	let nkeys: u8 = rng.gen_range(2..7);
+	let ncommitters: usize = rng.gen_range(1..4);
+	let removals = rng.gen_bool(0.6);
+	let ntx_per: usize = rng.gen_range(1..(if ncommitters == 1 { 9 } else { 5 }));
+	let nreaders: usize = rng.gen_range(1..4);
+	let reads_per: usize = rng.gen_range(2..12);
+	let sync = rng.gen_bool(0.5);
+	crate::order::arm(sync);
+	loom::stall::clear();
+	if rng.gen_bool(0.4) {
+		let role = rng.gen_range(0..6u32);
+		let at = if rng.gen_bool(0.5) { rng.gen_range(1..60u32) } else { rng.gen_range(1..600u32) };
+		let len = *[30u32, 200, 1000, 4000].get(rng.gen_range(0..4usize)).unwrap();
+		loom::stall::plan(role, at, len);
+		probe("stall_planned");
+	}
+	let mut o = Options::with_columns(std::path::Path::new(&dir), 1);
+	o.columns[0] = ColumnOptions { btree_index: col_kind == 1, uniform: col_kind == 2, ..Default::default() };
+	o.salt = Some(if col_kind == 2 { [0u8; 32] } else { [7u8; 32] });
+	o.sync_wal = sync;
+	o.sync_data = sync;
+	o.stats = false;
+	o.with_background_thread = false;
+	o.always_flush = always_flush;
+	let db = match Db::open_or_create(&o) {
+		Ok(db) => Arc::new(db),
+		Err(e) => panic!("VIOL C15 open-failed: {e}"),
+	};
+	let min_log: u64 = if always_flush { 0 } else { 64 * 1024 * 1024 };
+	let stamp = Arc::new(AtomicU64::new(1));
+	// plan: transaction ids are fixed up front: committer c's j-th transaction is 1 + c * ntx_per + j
+	let ntx = ncommitters * ntx_per;
+	let mut txs: Vec<TxX> = Vec::new();
+	for _ in 0..ntx {
+		let n = rng.gen_range(1..=std::cmp::min(4, nkeys as usize));
+		let mut keys: Vec<u8> = (0..nkeys).collect();
+		let mut w = Vec::new();
+		for _ in 0..n {
+			let i = rng.gen_range(0..keys.len());
+			let k = keys.remove(i);
+			let rem = removals && rng.gen_ratio(1, 3);
+			w.push((k, if rem { None } else { Some(VALUE_LENS[rng.gen_range(0..VALUE_LENS.len())]) }));
+		}
+		txs.push(TxX { inv: 0, ret: u64::MAX, writes: w });
+	}
+	let hist = Arc::new(Mutex::new(HistX { txs: txs.clone(), cons: Vec::new() }));
+	let mut workers: Vec<Option<thread::JoinHandle<()>>> = Vec::new();
+	for w in [0u8, 1, 2, 3] {
+		let d = db.clone();
+		workers.push(Some(thread::spawn(move || {
+			loom::stall::set_role(w as u32);
+			d.verif_run_worker(w, min_log)
+		})));
+	}
+	let mut committers = Vec::new();
+	for c in 0..ncommitters {
+		let db = db.clone();
+		let stamp = stamp.clone();
+		let hist = hist.clone();
+		let txs = txs.clone();
+		committers.push(thread::spawn(move || {
+			loom::stall::set_role(4);
+			let mut rng = shuttle::rand::thread_rng();
+			for j in 0..ntx_per {
+				let t = (1 + c * ntx_per + j) as u32;
+				let ops: Vec<(u8, Vec<u8>, Option<Vec<u8>>)> =
+					txs[t as usize - 1].writes.iter().map(|(k, len)| (0u8, key_bytes(col_kind, *k), len.map(|l| make_value(t, *k, l)))).collect();
+				let s = stamp.fetch_add(1, Ordering::SeqCst);
+				hist.lock().unwrap().txs[t as usize - 1].inv = s;
+				if let Err(e) = db.commit(ops) {
+					panic!("VIOL C15 commit-failed: commit {t} returned {e}");
+				}
+				let e = stamp.fetch_add(1, Ordering::SeqCst);
+				hist.lock().unwrap().txs[t as usize - 1].ret = e;
+				if rng.gen_bool(0.4) {
+					thread::yield_now();
+				}
+				for _ in 0..rng.gen_range(0..20) {
+					thread::sleep(std::time::Duration::ZERO);
+				}
+			}
+		}));
+	}
+	let mut readers = Vec::new();
+	for ri in 0..nreaders {
+		let db = db.clone();
+		let stamp = stamp.clone();
+		let hist = hist.clone();
+		readers.push(thread::spawn(move || {
+			loom::stall::set_role(5);
+			let mut rng = shuttle::rand::thread_rng();
+			let mut seen: Vec<u32> = Vec::new();
+			let mut log: Vec<(u64, u64, u8, u32)> = Vec::new();
+			let who = format!("reader {ri}");
+			let mut left = reads_per;
+			while left > 0 {
+				left -= 1;
+				if col_kind == 1 && (iter_mode || rng.gen_ratio(1, 4)) && rng.gen_ratio(3, 4) {
+					// an iterator walk: every step is judged against the state at the time of the call
+					probe("iterator_walk_under_threads");
+					let mut it = match db.iter(0) {
+						Ok(it) => it,
+						Err(e) => panic!("VIOL {prop} iter-error: {e}"),
+					};
+					let forward = rng.gen_bool(0.6);
+					let from: Option<u8> = if rng.gen_bool(0.5) { Some(rng.gen_range(0..nkeys)) } else { None };
+					let r = match from {
+						Some(k) => it.seek(&key_bytes(col_kind, k)),
+						None if forward => it.seek_to_first(),
+						None => it.seek_to_last(),
+					};
+					if let Err(e) = r {
+						panic!("VIOL {prop} iter-error: seek returned {e}");
+					}
+					// keys still to be accounted for, in the order of the walk
+					let mut pending: Vec<u8> = match (forward, from) {
+						(true, Some(k)) => (k..nkeys).collect(),
+						(true, None) => (0..nkeys).collect(),
+						(false, Some(k)) => (0..=k).rev().collect(),
+						(false, None) => (0..nkeys).rev().collect(),
+					};
+					let steps = rng.gen_range(1..=nkeys as usize + 1);
+					for _ in 0..steps {
+						if rng.gen_bool(0.3) {
+							for _ in 0..rng.gen_range(0..30) {
+								thread::sleep(std::time::Duration::ZERO);
+							}
+						}
+						let inv = stamp.fetch_add(1, Ordering::SeqCst);
+						let got = if forward { it.next() } else { it.prev() };
+						let ret = stamp.fetch_add(1, Ordering::SeqCst);
+						let got = match got {
+							Ok(g) => g,
+							Err(e) => panic!("VIOL {prop} iter-error: step returned {e}"),
+						};
+						let mut h = hist.lock().unwrap();
+						match got {
+							Some((key, val)) => {
+								if key.len() != 2 || key[0] != b'k' || !pending.contains(&key[1]) {
+									panic!("VIOL {prop} iter-order: {who} iterator ({}) returned key {:?}, expected one of the keys {:?}", if forward { "forward" } else { "backward" }, key, pending);
+								}
+								let k = key[1];
+								let t = match decode_value(&val, k) {
+									Ok(t) => t,
+									Err(e) => panic!("VIOL {prop} garbage-read: {who} iterator key {k}: {e}"),
+								};
+								// every key passed over must have been absent at some moment of the call
+								while pending[0] != k {
+									let x = pending.remove(0);
+									if let Err(e) = h.observe(&format!("{who} iterator (passed over)"), x, None, inv, ret, &mut seen) {
+										panic!("VIOL {prop} iter-skipped-live-key: {e}");
+									}
+								}
+								pending.remove(0);
+								if let Err(e) = h.observe(&format!("{who} iterator"), k, Some(t), inv, ret, &mut seen) {
+									panic!("VIOL {prop} iter-{e}");
+								}
+								log.push((inv, ret, k, t));
+							},
+							None => {
+								for x in pending.drain(..) {
+									if let Err(e) = h.observe(&format!("{who} iterator (end reached)"), x, None, inv, ret, &mut seen) {
+										panic!("VIOL {prop} iter-skipped-live-key: {e}");
+									}
+								}
+								log.push((inv, ret, 255, 0));
+								break
+							},
+						}
+					}
+					continue
+				}
+				let k: u8 = rng.gen_range(0..nkeys);
+				let key = key_bytes(col_kind, k);
+				let by_size = rng.gen_ratio(1, 4);
+				let inv = stamp.fetch_add(1, Ordering::SeqCst);
+				let (got, size) = if by_size {
+					match db.get_size(0, &key) {
+						Ok(s) => (None, s),
+						Err(e) => panic!("VIOL C05 read-error: get_size returned {e}"),
+					}
+				} else {
+					match db.get(0, &key) {
+						Ok(v) => (v, None),
+						Err(e) => panic!("VIOL C05 read-error: get returned {e}"),
+					}
+				};
+				let ret = stamp.fetch_add(1, Ordering::SeqCst);
+				let mut h = hist.lock().unwrap();
+				if by_size {
+					match size {
+						None =>
+							if let Err(e) = h.observe(&who, k, None, inv, ret, &mut seen) {
+								panic!("VIOL C05 {e}");
+							},
+						Some(sz) => {
+							// the size must be that of an admissible transaction; judged fully when only one fits
+							let fits: Vec<u32> = h
+								.ids()
+								.filter(|t| matches!(h.writes(*t, k), Some(Some(l)) if l.max(5) as u32 == sz))
+								.collect();
+							let mut last_err = format!("size-mismatch: {who} key {k} reports {sz} bytes, no transaction set a value of that size");
+							let mut ok = false;
+							for t in &fits {
+								let mut trial = HistX { txs: h.txs.clone(), cons: Vec::new() };
+								let mut s2 = seen.clone();
+								match trial.observe(&who, k, Some(*t), inv, ret, &mut s2) {
+									Ok(()) => {
+										ok = true;
+										if fits.len() == 1 {
+											h.cons.extend(trial.cons);
+											seen = s2;
+										}
+										break
+									},
+									Err(e) => last_err = e,
+								}
+							}
+							if !ok {
+								panic!("VIOL C05 {last_err} (get_size)");
+							}
+							probe("size_read_under_threads");
+						},
+					}
+					log.push((inv, ret, k, u32::MAX));
+				} else {
+					let tv = match &got {
+						None => None,
+						Some(v) => match decode_value(v, k) {
+							Ok(t) => Some(t),
+							Err(e) => panic!("VIOL C05 garbage-read: {who} key {k}: {e}"),
+						},
+					};
+					if let Err(e) = h.observe(&who, k, tv, inv, ret, &mut seen) {
+						panic!("VIOL C05 {e}");
+					}
+					log.push((inv, ret, k, tv.unwrap_or(0)));
+				}
+			}
+			log
+		}));
+	}
+	for c in committers {
+		if let Err(e) = c.join() {
+			std::panic::resume_unwind(e);
+		}
+	}
+	let mut rlogs = Vec::new();
+	for r in readers {
+		match r.join() {
+			Ok(l) => rlogs.push(l),
+			Err(e) => std::panic::resume_unwind(e),
+		}
+	}
+	if rng.gen_bool(0.5) {
+		thread::yield_now();
+	}
+	if loom::stall::FIRED.swap(0, Ordering::Relaxed) > 0 {
+		probe("stall_fired");
+	}
+	db.verif_shutdown();
+	let order = [2usize, 1, 0, 3];
+	let mut ws = workers;
+	for i in order {
+		if let Some(h) = ws[i].take() {
+			if let Err(e) = h.join() {
+				std::panic::resume_unwind(e);
+			}
+		}
+	}
+	let db = match Arc::try_unwrap(db) {
+		Ok(db) => db,
+		Err(_) => panic!("VIOL C15 handle-leaked: a worker kept a reference to the database"),
+	};
+	drop(db);
+	// reopen: the final state must be explained by a commit order consistent with everything observed
+	let db = match Db::open(&o) {
+		Ok(db) => db,
+		Err(e) => panic!("VIOL C03 reopen-failed: {e}"),
+	};
+	let mut h = hist.lock().unwrap();
+	let end = stamp.fetch_add(2, Ordering::SeqCst);
+	let mut final_seen: Vec<u32> = Vec::new();
+	for k in 0..nkeys {
+		let tv = match db.get(0, &key_bytes(col_kind, k)) {
+			Ok(None) => None,
+			Ok(Some(v)) => match decode_value(&v, k) {
+				Ok(t) => Some(t),
+				Err(e) => panic!("VIOL C03 garbage-after-reopen: key {k}: {e}"),
+			},
+			Err(e) => panic!("VIOL C03 read-error-after-reopen: {e}"),
+		};
+		// every transaction completed before this read began; the observer has seen nothing before
+		let mut none_seen = Vec::new();
+		if let Err(e) = h.observe("final state after drop and reopen", k, tv, end, end + 1, &mut none_seen) {
+			panic!("VIOL C03 lost-after-drop: {e}");
+		}
+		if let Some(t) = tv {
+			final_seen.push(t);
+		}
+	}
+	drop(db);
+	if let Err(e) = h.check_acyclic() {
+		panic!("VIOL {prop} {e}");
+	}
+	crate::order::disarm();
+	if ncommitters > 1 {
+		probe("several_committers");
+	}
+	if removals {
+		probe("removals_under_threads");
+	}
+	let mut hh = fnv(0, &[col_kind, always_flush as u8, nkeys, ncommitters as u8]);
+	for t in &h.txs {
+		hh = fnv(hh, &t.inv.to_le_bytes());
+		hh = fnv(hh, &t.ret.to_le_bytes());
+	}
+	for l in &rlogs {
+		for e in l {
+			hh = fnv(hh, &e.0.to_le_bytes());
+			hh = fnv(hh, &e.1.to_le_bytes());
+			hh = fnv(hh, &[e.2]);
+			hh = fnv(hh, &e.3.to_le_bytes());
+		}
+	}
+	crate::STEPS_HINT.fetch_add(stamp.load(Ordering::Relaxed), Ordering::Relaxed);
+	note_history(hh, || {
+		json!({
+			"scenario": if iter_mode { "iter (visx)" } else { "visx" }, "column": (["hash", "btree", "uniform-zero-salt"][col_kind as usize]),
+			"committers": ncommitters, "removals": removals, "always_flush": always_flush, "sync": sync,
+			"transactions": h.txs.iter().enumerate().map(|(i, t)| json!({"tx": i + 1, "start": t.inv, "end": t.ret,
+				"writes": t.writes.iter().map(|w| json!([w.0, w.1])).collect::<Vec<_>>()})).collect::<Vec<_>>(),
+			"reads": rlogs.iter().map(|l| l.iter().map(|e| json!({"invoke": e.0, "return": e.1, "key": e.2, "saw_tx": e.3})).collect::<Vec<_>>()).collect::<Vec<_>>(),
+			"order_constraints_checked": h.cons.len(),
+		})
+	});
+}
+
+// ---------------------------------------------------------------------------------------------
+// C16 (thread part): file operations start failing at a scheduler-chosen moment while the four
+// real worker loops, a committer and readers run. parity-db's own `try_io` counter is the fault
+// (thread-local; all shuttle tasks of one execution share the OS thread, so the n-th wrapped file
+// operation of *any* thread fails, and every later one).
+
+fn ioerr_threads() {
+	let dir = fresh_dir();
+	let mut rng = shuttle::rand::thread_rng();
+	let col_kind: u8 = rng.gen_range(0..2); // hash, btree (no index growth: record id = transaction number)
+	let always_flush = rng.gen_bool(0.7);
+	let nkeys: u8 = rng.gen_range(2..6);
+	let ntx: usize = rng.gen_range(2..14);
+	let nreaders: usize = rng.gen_range(0..3);
+	let reads_per: usize = rng.gen_range(2..12);
+	let removals = rng.gen_bool(0.4);
+	crate::order::arm(false);
+	loom::stall::clear();
+	if rng.gen_bool(0.3) {
+		let role = rng.gen_range(0..6u32);
+		loom::stall::plan(role, rng.gen_range(1..200u32), *[30u32, 200, 1000].get(rng.gen_range(0..3usize)).unwrap());
+	}
+	let mut o = Options::with_columns(std::path::Path::new(&dir), 1);
+	o.columns[0] = ColumnOptions { btree_index: col_kind == 1, ..Default::default() };
+	o.salt = Some([7u8; 32]);
+	o.sync_wal = true;
+	o.sync_data = true;
+	o.stats = false;
+	o.with_background_thread = false;
+	o.always_flush = always_flush;
+	parity_db::set_number_of_allowed_io_operations(usize::MAX);
+	let db = match Db::open_or_create(&o) {
+		Ok(db) => Arc::new(db),
+		Err(e) => panic!("VIOL C15 open-failed: {e}"),
+	};
+	let min_log: u64 = if always_flush { 0 } else { 64 * 1024 * 1024 };
+	// record ids continue from what the (empty) database reports as enacted at open
+	let enacted_at_open = db.verif_pipeline_counts().5 as usize;
+	let stamp = Arc::new(AtomicU64::new(1));
+	let mut txs: Vec<TxX> = Vec::new();
+	for _ in 0..ntx + 1 {
+		let n = rng.gen_range(1..=std::cmp::min(4, nkeys as usize));
+		let mut keys: Vec<u8> = (0..nkeys).collect();
+		let mut w = Vec::new();
+		for _ in 0..n {
+			let i = rng.gen_range(0..keys.len());
+			let k = keys.remove(i);
+			let rem = removals && rng.gen_ratio(1, 3);
+			w.push((k, if rem { None } else { Some(VALUE_LENS[rng.gen_range(0..VALUE_LENS.len())]) }));
+		}
+		txs.push(TxX { inv: 0, ret: u64::MAX, writes: w });
+	}
+	let hist = Arc::new(Mutex::new(HistX { txs: txs.clone(), cons: Vec::new() }));
+	let armed = Arc::new(AtomicU64::new(0));
+	let mut workers: Vec<Option<thread::JoinHandle<()>>> = Vec::new();
+	for w in [0u8, 1, 2, 3] {
+		let d = db.clone();
+		workers.push(Some(thread::spawn(move || {
+			loom::stall::set_role(w as u32);
+			d.verif_run_worker(w, min_log)
+		})));
+	}
+	let ops_of = move |txs: &Vec<TxX>, t: u32| -> Vec<(u8, Vec<u8>, Option<Vec<u8>>)> {
+		txs[t as usize - 1].writes.iter().map(|(k, len)| (0u8, key_bytes(col_kind, *k), len.map(|l| make_value(t, *k, l)))).collect()
+	};
+	// the committer returns the number of accepted transactions
+	let committer = {
+		let db = db.clone();
+		let stamp = stamp.clone();
+		let hist = hist.clone();
+		let txs = txs.clone();
+		let armed = armed.clone();
+		thread::spawn(move || -> usize {
+			loom::stall::set_role(4);
+			let mut rng = shuttle::rand::thread_rng();
+			for t in 1..=ntx as u32 {
+				let s = stamp.fetch_add(1, Ordering::SeqCst);
+				hist.lock().unwrap().txs[t as usize - 1].inv = s;
+				match db.commit(ops_of(&txs, t)) {
+					Ok(()) => {
+						let e = stamp.fetch_add(1, Ordering::SeqCst);
+						hist.lock().unwrap().txs[t as usize - 1].ret = e;
+					},
+					Err(e) => {
+						// refused: it never existed
+						hist.lock().unwrap().txs[t as usize - 1].inv = 0;
+						if armed.load(Ordering::SeqCst) == 0 {
+							panic!("VIOL C16 commit-failed-without-fault: commit {t} returned {e} before any fault was injected");
+						}
+						if !matches!(e, Error::Background(_) | Error::Io(_)) {
+							panic!("VIOL C16 wrong-error: commit {t} returned {e} after an injected I/O failure");
+						}
+						probe("commit_refused_after_io_failure");
+						return t as usize - 1
+					},
+				}
+				if rng.gen_bool(0.4) {
+					thread::yield_now();
+				}
+				for _ in 0..rng.gen_range(0..30) {
+					thread::sleep(std::time::Duration::ZERO);
+				}
+			}
+			ntx
+		})
+	};
+	let mut readers = Vec::new();
+	for ri in 0..nreaders {
+		let db = db.clone();
+		let stamp = stamp.clone();
+		let hist = hist.clone();
+		let armed = armed.clone();
+		readers.push(thread::spawn(move || {
+			loom::stall::set_role(5);
+			let mut rng = shuttle::rand::thread_rng();
+			let mut seen: Vec<u32> = Vec::new();
+			let who = format!("reader {ri}");
+			for _ in 0..reads_per {
+				for _ in 0..rng.gen_range(0..40) {
+					thread::sleep(std::time::Duration::ZERO);
+				}
+				let k: u8 = rng.gen_range(0..nkeys);
+				let inv = stamp.fetch_add(1, Ordering::SeqCst);
+				let got = db.get(0, &key_bytes(col_kind, k));
+				let ret = stamp.fetch_add(1, Ordering::SeqCst);
+				let tv = match got {
+					Ok(None) => None,
+					Ok(Some(v)) => match decode_value(&v, k) {
+						Ok(t) => Some(t),
+						Err(e) => panic!("VIOL C16 garbage-read: {who} key {k}: {e}"),
+					},
+					Err(e) => {
+						// the instrumentation counter also fails table reads: reported by the failing call
+						if armed.load(Ordering::SeqCst) == 0 {
+							panic!("VIOL C16 read-error-without-fault: {e}");
+						}
+						probe("read_failed_after_io_failure");
+						continue
+					},
+				};
+				if let Err(e) = hist.lock().unwrap().observe(&who, k, tv, inv, ret, &mut seen) {
+					panic!("VIOL C16 wrong-data-{e}");
+				}
+			}
+		}));
+	}
+	// arm the fault at a scheduler-chosen moment
+	for _ in 0..rng.gen_range(0..250) {
+		thread::sleep(std::time::Duration::ZERO);
+	}
+	let synced_floor = (db.verif_pipeline_counts().5 as usize).saturating_sub(enacted_at_open);
+	let allowed: usize = if rng.gen_bool(0.3) { 0 } else { rng.gen_range(0..40) };
+	armed.store(1, Ordering::SeqCst);
+	parity_db::set_number_of_allowed_io_operations(allowed);
+	probe("io_fault_armed");
+	let accepted = match committer.join() {
+		Ok(n) => n,
+		Err(e) => {
+			parity_db::set_number_of_allowed_io_operations(usize::MAX);
+			std::panic::resume_unwind(e)
+		},
+	};
+	for r in readers {
+		if let Err(e) = r.join() {
+			parity_db::set_number_of_allowed_io_operations(usize::MAX);
+			std::panic::resume_unwind(e);
+		}
+	}
+	// let the pipeline run into the fault (or drain)
+	let mut spins = 0u64;
+	loop {
+		let c = db.verif_pipeline_counts();
+		if db.verif_has_bg_err() || (c.0 == 0 && (!always_flush || (!c.2 && c.4 <= 0))) {
+			break
+		}
+		spins += 1;
+		thread::yield_now();
+		if spins > 100_000 {
+			parity_db::set_number_of_allowed_io_operations(usize::MAX);
+			panic!("VIOL C16 no-progress: neither drained nor stopped with an error after {spins} yields (queued {}, files to read {}, logged bytes {})", c.0, c.2, c.4);
+		}
+	}
+	// no new failure from here on (one may still be on its way up a worker's stack)
+	parity_db::set_number_of_allowed_io_operations(usize::MAX);
+	let failed = db.verif_has_bg_err();
+	if failed {
+		probe("worker_stopped_with_io_error");
+		// later commits are refused
+		let extra = (ntx + 1) as u32;
+		if db.commit(ops_of(&txs, extra)).is_ok() {
+			parity_db::set_number_of_allowed_io_operations(usize::MAX);
+			panic!("VIOL C16 commit-accepted-after-background-error: a worker had stored an I/O error, yet a later commit was accepted");
+		}
+	}
+	// reads keep returning committed data (fault lifted: the counter would also fail plain table reads)
+	parity_db::set_number_of_allowed_io_operations(usize::MAX);
+	let model_at = |j: usize| -> BTreeMap<u8, Option<u32>> {
+		let mut m = BTreeMap::new();
+		for t in 1..=j {
+			for (k, w) in &txs[t - 1].writes {
+				m.insert(*k, w.map(|_| t as u32));
+			}
+		}
+		m
+	};
+	let read_all = |db: &Db, what: &str| -> BTreeMap<u8, Option<u32>> {
+		let mut m = BTreeMap::new();
+		for k in 0..nkeys {
+			match db.get(0, &key_bytes(col_kind, k)) {
+				Ok(None) => {},
+				Ok(Some(v)) => match decode_value(&v, k) {
+					Ok(t) => {
+						m.insert(k, Some(t));
+					},
+					Err(e) => panic!("VIOL C16 garbage-read: {what} key {k}: {e}"),
+				},
+				Err(e) => panic!("VIOL C16 read-failed: {what}: get of key {k} returned {e} with the fault lifted"),
+			}
+		}
+		m
+	};
+	let norm = |m: BTreeMap<u8, Option<u32>>| -> BTreeMap<u8, Option<u32>> { m.into_iter().filter(|(_, v)| v.is_some()).collect() };
+	let live = read_all(&db, "after the failure");
+	let want = norm(model_at(accepted));
+	if live != want {
+		panic!("VIOL C16 read-mismatch: after the I/O failure the keys read {live:?}, the accepted commits give {want:?} (accepted {accepted}, background error {failed})");
+	}
+	// the fault persists through shutdown in half of the executions
+	let fault_during_shutdown = rng.gen_bool(0.5);
+	if fault_during_shutdown {
+		parity_db::set_number_of_allowed_io_operations(0);
+	}
+	db.verif_shutdown();
+	let order = [2usize, 1, 0, 3];
+	let mut ws = workers;
+	for i in order {
+		if let Some(h) = ws[i].take() {
+			if let Err(e) = h.join() {
+				parity_db::set_number_of_allowed_io_operations(usize::MAX);
+				std::panic::resume_unwind(e);
+			}
+		}
+	}
+	// an error that was on its way when `failed` was sampled has been stored by now
+	let failed = failed || db.verif_has_bg_err() || fault_during_shutdown;
+	let db = match Arc::try_unwrap(db) {
+		Ok(db) => db,
+		Err(_) => panic!("VIOL C15 handle-leaked: a worker kept a reference to the database"),
+	};
+	drop(db);
+	parity_db::set_number_of_allowed_io_operations(usize::MAX);
+	let db = match Db::open(&o) {
+		Ok(db) => db,
+		Err(e) => panic!("VIOL C16 reopen-failed: open after the fault was gone returned {e}"),
+	};
+	let got = read_all(&db, "after reopen");
+	drop(db);
+	let floor = std::cmp::min(synced_floor, accepted);
+	let upper = if failed { accepted } else { accepted };
+	let hit = (0..=upper).rev().find(|j| norm(model_at(*j)) == got);
+	match hit {
+		None => panic!("VIOL C16 not-a-prefix: after reopen the keys read {got:?}, which is no prefix of the {accepted} accepted transactions {:?}", txs.iter().take(accepted).map(|t| t.writes.iter().map(|w| (w.0, w.1.is_some())).collect::<Vec<_>>()).collect::<Vec<_>>()),
+		Some(j) if j < floor && norm(model_at(floor)) != got => panic!(
+			"VIOL C16 synced-commit-lost: after reopen the state is that of the first {j} transactions; {floor} had been applied from a synced log before the fault was armed"
+		),
+		Some(j) => {
+			if !failed && j < accepted {
+				panic!("VIOL C16 lost-without-error: no error was reported anywhere, yet after drop and reopen only {j} of {accepted} accepted transactions are present");
+			}
+		},
+	}
+	let mut hh = fnv(0, &[col_kind, always_flush as u8, nkeys, accepted as u8, failed as u8, allowed as u8]);
+	let h = hist.lock().unwrap();
+	for t in &h.txs {
+		hh = fnv(hh, &t.inv.to_le_bytes());
+		hh = fnv(hh, &t.ret.to_le_bytes());
+	}
+	crate::STEPS_HINT.fetch_add(stamp.load(Ordering::Relaxed), Ordering::Relaxed);
+	note_history(hh, || {
+		json!({
+			"scenario": "ioerr (threads)", "column": (["hash", "btree"][col_kind as usize]), "always_flush": always_flush,
+			"file_operations_allowed_after_arming": allowed, "accepted_transactions": accepted, "planned_transactions": ntx,
+			"worker_stopped_with_error": failed, "applied_before_arming": synced_floor, "recovered_prefix": hit,
+		})
 	});
 }
